@@ -118,6 +118,7 @@ ItemAt(g) ==
   ELSE IF g <= O8 THEN UintAt(g - O7)
   ELSE IF g <= O9 THEN ListAt(g - O8)
   ELSE AlWordAt(g - O9)
+Histories == IF "VERIF_TIER" \in DOMAIN IOEnv /\ IOEnv.VERIF_TIER = "thorough" THEN 300 ELSE 40
 VARIABLE n
 INSTANCE GenBase
 =============================================================================
